@@ -138,7 +138,7 @@ class Pipeline:
         return name
 
     def run(self, seconds, max_steps=300000):
-        fake_time = types.SimpleNamespace(time=lambda: self.world.now / 1e9, sleep=simzmq.sleep)
+        fake_time = vlib.FakeTime(lambda: self.world.now, simzmq.sleep)
         saved_time, saved_emitter = of_filter.time, Filter.emitter
         of_filter.time = fake_time
         Filter.emitter = None
